@@ -198,7 +198,13 @@ def run(ctx):
         gA = float(np.sum(w * np.abs(k - np.sum(w * k) / np.sum(w))) / np.sum(w * (k - np.sum(w * k) / np.sum(w)) ** 2)) if mode == '2d' \
             else float(np.sum(w * np.abs(k)) / np.sum(w * k * k))
         tolA = 1e-7 * (1 + abs(a_ref[m0])) + 3e-6 * gA          # float32 memmap for cube packages, 1e-9 convolution agreement
-        ctol = 1e-6 * (1 + chi_ref[m0]) + float(np.sum(w)) * 1e-10
+        # chi^2: first-order effect of the accuracy delta of the model log-fluxes held by the fitter
+        # (float32 memmap for cube packages: fit() always memory-maps them; 1e-9 convolution agreement otherwise)
+        lm = np.asarray(logm[m0] if mode == '2d' else logm[m0, jref[m0]], float)
+        delta = 3e-7 * (1 + float(np.max(np.abs(lm)))) if style == 'v2' else 2e-9
+        resv = np.asarray(logf, float) - lm - a_ref[m0] * k + (2 * s_ref[m0] if mode == '2d' else 0.0)
+        ctol = 1e-9 * (1 + chi_ref[m0]) + float(np.sum(w * (2 * np.abs(resv) * delta + delta ** 2)))
+        tolA = 1e-7 * (1 + abs(a_ref[m0])) + 3 * delta * gA
         if abs(float(rec.av[0]) - a_ref[m0]) > tolA or abs(float(rec.sc[0]) - s_ref[m0]) > (1e-12 if mode == '3d' else tolA) + 1e-9 or \
                 abs(float(rec.chi2[0]) - chi_ref[m0]) > ctol:
             ctx.violation('recovery:differs-from-reference', 'rank-1 (chi^2, A_V, scale) differ from the reference fit of the same data',
@@ -206,7 +212,9 @@ def run(ctx):
                                tolA=tolA, ctol=ctol))
         # sanity of the oracle itself: the reference is within the analytic bias bound of the plant
         bias = 0.5 * (np.max(err / np.maximum(np.abs(flux), 1e-300)) ** 2) / np.log(10) if e > 0 else 0.0
-        if abs(a_ref[m0] - a0) > bias * gA * 2 + 1e-6 or (mode == '3d' and abs(s_ref[m0] - s0) > 1e-9):
+        # 3-D with noisy photometry: the biased plant may sit one or two grid steps away, which A_V then compensates (2 dex per dex of distance)
+        slack = 0.0 if (mode == '2d' or e == 0) else 4 * step
+        if abs(a_ref[m0] - a0) > (bias + slack) * gA * 2 + 1e-6 or (mode == '3d' and abs(s_ref[m0] - s0) > slack / 2 + 1e-9):
             ctx.inconclusive('oracle sanity failed: reference (%g, %g) vs plant (%g, %g), bias bound %g' % (a_ref[m0], s_ref[m0], a0, s0, bias * gA))
         # the text row next to m is m's own parameter row
         lines = open(txt).read().split('\n')
